@@ -1174,10 +1174,16 @@ func ruleTileCompose(w *World, r *Report) {
 // (CalculateArithmeticShift(1, z), 1 << z, math.Pow(2, z)) or an existence
 // validator built on one.
 func hasRangeValidation(w *World, f *ssa.Function, depth int, seen map[*ssa.Function]bool) bool {
-	if f == nil || f.Blocks == nil || seen[f] || depth > 3 {
+	if f == nil || f.Blocks == nil || depth > 3 {
+		return false
+	}
+	// seen: functions being evaluated (cut recursion); a finished callee is evaluated
+	// again when it is met again (a second call of the same validator)
+	if seen[f] {
 		return false
 	}
 	seen[f] = true
+	defer delete(seen, f)
 	e := scFor(w)
 	pow := func(v ssa.Value) bool {
 		found := false
@@ -1202,6 +1208,14 @@ func hasRangeValidation(w *World, f *ssa.Function, depth int, seen map[*ssa.Func
 				if g := calleeOf(y); g != nil && w.InModule(g) && hasRangeValidation(w, g, depth+1, seen) {
 					found = true
 					return
+				}
+				// a helper that returns the 2^zoom quantity (possibly from a table)
+				if g := calleeOf(y); g != nil && w.InModule(g) && g.Blocks != nil && d < 4 {
+					for _, ret := range returnsOf(g) {
+						for _, rv := range ret.Results {
+							walk(rv, d+2)
+						}
+					}
 				}
 				for _, a := range y.Call.Args {
 					walk(a, d+1)
